@@ -211,6 +211,7 @@ type Focus struct {
 	opened  []plannedReq     // requests opened in the block being drawn
 	used    map[string]bool  // (request, voter) pairs already voted in the block being drawn
 
+	lastView  *View // the view the last block was drawn from (DrawEnv draws the mempool's other content from it)
 	down      []int // validators whose node is down from height downFrom on (absent from every commit)
 	downFrom  int64
 	downDrawn bool
@@ -960,6 +961,7 @@ var focusActions = []string{"stake_new", "stake_top", "unstake", "withdraw", "wi
 
 // DrawBlock draws the transactions of the next block from the view of the last committed one.
 func (f *Focus) DrawBlock(v *View) []txgen.Tx {
+	f.lastView = v
 	if f.intent == nil {
 		f.intent = map[string]int8{}
 	}
@@ -1056,6 +1058,35 @@ func (f *Focus) DrawEnv(txs []txgen.Tx) sim.BlockSpec {
 	}
 	for _, tx := range txs {
 		spec.Txs = append(spec.Txs, tx.Bytes)
+	}
+	// the rest of the mempool: transactions the node checks around this block without executing them in it
+	if f.lastView != nil && f.rng(0, 2, "pool") == 0 {
+		n := f.rng(1, 2, "pool-n")
+		for i := 0; i < n; i++ {
+			var ptx []txgen.Tx
+			switch f.rng(0, 6, "pool-what") {
+			case 0:
+				ptx = f.stakeTop(f.lastView)
+			case 1:
+				ptx = f.unstake(f.lastView)
+			case 2:
+				ptx = f.withdraw(f.lastView, false)
+			case 3:
+				ptx = f.allegation(f.lastView)
+			case 4:
+				ptx = f.vote(f.lastView)
+			case 5:
+				ptx = f.release(f.lastView)
+			default:
+				ptx = f.send()
+			}
+			for _, x := range ptx {
+				spec.Pool = append(spec.Pool, x.Bytes)
+			}
+		}
+		if len(spec.Pool) > 0 {
+			f.Feat["block-with-mempool-only-transactions"]++
+		}
 	}
 	if !f.downDrawn {
 		f.downDrawn = true
